@@ -10,7 +10,11 @@ PROP = {
              "union at least once, present/absent Maybe, left/right Either, inline/ref EitherRef, nested refs, all four MsgAddress "
              "forms with anycast depth 1..30 and address lengths 0,1,8,256,511, dictionaries of 0..3 entries; (3) 30 (600 thorough) "
              "more values for Message, CommonMsgInfo, StateInit, CurrencyCollection, Account, TransactionDescr, Transaction, "
-             "MsgEnvelope, InMsg, OutMsg, VmStackValue; (3a) the extension layer: SnakeData / Bytes / Text / TextComment / "
+             "MsgEnvelope, InMsg, OutMsg, VmStackValue; (2b) the offset family: every fixed-width integer type (tlb.Uint1..64, Int1..64, the 128/256/257-bit ones, and the Go kinds "
+             "uint8..64 / int8..64 of the reflection codec) placed after a prefix of 0..15 bits in the same cell (struct {P UintK; V T} "
+             "built with reflect.StructOf), i.e. at every bit offset mod 8, with the all-ones value, the value with only the top and "
+             "the lowest bit set, a random odd and a random value (thorough: all boundary values + 6 random): cell and decoded value "
+             "vs the model, direct round-trip oracle (key offset-roundtrip); (3a) the extension layer: SnakeData / Bytes / Text / TextComment / "
              "FixedLengthText and the 16 bodies holding them, 25 (300 thorough) values each with snake lengths 0, < 400, 900..1040, "
              "1023, 1024, 2046..2048, > 3069 bits (so that, after the fields written before, the data ends before / exactly at / "
              "after the cell boundary and spills into 1, 2, 3 chained cells) and byte strings of 0, 1, 126, 127, 255 bytes; (4) VM stacks of depth 0,1,2..5,12..41 whose entries are nulls, tiny ints and "
@@ -19,7 +23,7 @@ PROP = {
              "cursor family: for every type holding a bit string or a cell (MsgAddress extern/var, Any, ^Cell, cell slices; 120 "
              "values for MsgAddress, 60 for Message/CommonMsgInfo) the read cursors inside the Go value are advanced by "
              "1/3/8/9/64/511 bits (cells: and one reference) before tlb.Marshal: the cell must equal the one of the fresh value and "
-             "the model's; (4d) exotic cells through boc.Cell positions (implementation only, counted under exotic|kinds|outcome): for every described type with a ^Cell / Ref[Cell] / Maybe[Ref[Cell]] / Any position (60 values for StateInit, Message, SimpleLib, Account, VmStackValue, 4 for the others; x10 thorough) the cells at the ENCODED positions are replaced by library cells (8+256 bits), pruned branches (masks 1..7), Merkle proofs and Merkle updates with consistent children (boc.VerifSetTypeMask), Any values get 1-2 exotic references: every planted cell must occur in the tree tlb.Marshal produces with its hash, cell type and level mask (C03_cell_passthrough on the model side), and, unless a pruned branch is involved (the decoder leaves those empty by design), decode -> encode reproduces the root hash; 40 state-inits built as on chain with library-cell code: decode -> encode reproduces the source hash (keys exotic-passthrough-<Type>, stateinit-exotic-reencode); (4c) exploration support for the types OUTSIDE the model (opaque, decode-only, partial: ~130 types, 12 "
+             "the model's; (4d) exotic cells through boc.Cell positions (implementation only, counted under exotic|kinds|outcome): for every described type with a ^Cell / Ref[Cell] / Maybe[Ref[Cell]] / Any position (60 values for StateInit, Message, SimpleLib, Account, VmStackValue, 4 for the others; x10 thorough) the cells at the ENCODED positions are replaced by library cells (8+256 bits), pruned branches (masks 1..7), Merkle proofs and Merkle updates with consistent children (boc.VerifSetTypeMask), Any values get 1-2 exotic references: every planted cell must occur in the tree tlb.Marshal produces with its hash, cell type and level mask (C03_cell_passthrough on the model side), and, unless a pruned branch is involved (the decoder leaves those empty by design), decode -> encode reproduces the root hash under EVERY decoder configuration (tlb.Unmarshal, NewDecoder(), NewDecoder().WithLibraryResolver(fn) and a zero Decoder with a resolver - fn returns an ordinary cell -, WithDebug()); 40 state-inits built as on chain with library-cell code: decode -> encode reproduces the source hash (keys exotic-passthrough-<Type>, stateinit-exotic-reencode); (4c) exploration support for the types OUTSIDE the model (opaque, decode-only, partial: ~130 types, 12 "
              "values each, 150 thorough): Go values built by reflection (described sub-trees through their descriptor, hand-written "
              "leaves SnakeData/Bytes/Text/FixedLengthText/SignedCoins/Anycast/dictionaries through small generators incl. empty, "
              "zero-length and > 1023-bit fills, one constructor per union, conditional block.tlb fields kept consistent with their "
